@@ -103,7 +103,8 @@ def solve_goal(goal):
         except SymPyException:
             return False
 
-        return lhs != rhs
+        # structural inequality of expressions does not imply inequality of values
+        return (lhs - rhs).is_zero is False
     elif goal.is_equals():
         try:
             lhs, rhs = convert(goal.lhs), convert(goal.rhs)
